@@ -116,23 +116,25 @@ def build_design(options):
 
 
 class Generated(DesignPart):
-    def __init__(self, name, third_party=False, required=(), time_cap=None):
-        self.name, self.third_party = name, third_party
+    PATTERNS = {0: lambda i: True, 1: lambda i: False, 2: lambda i: i % 2 == 0, 3: lambda i: i % 2 == 1, 4: lambda i: i % 3 == 0, 5: lambda i: i % 3 != 0, 6: lambda i: i < 5, 7: lambda i: i >= 5}
+
+    def __init__(self, name, third_party=False, required=(), time_cap=None, patterns=4):
+        self.name, self.third_party, self.npat = name, third_party, patterns
         self.required_classes = required; self.time_cap = time_cap
         self.designs = []
-        self.bounds = dict(catalogue=[c[0] for c in CATALOGUE], references='per path: one focus declaration with every reference position of its list or none; the others all referenced / none / alternating (4 patterns)',
+        self.bounds = dict(catalogue=[c[0] for c in CATALOGUE], references='per path: one focus declaration with every reference position of its list or none; the others all referenced / none / alternating (4 patterns quick, 8 thorough)',
                            ineligible='label, loop parameter, record element, enumeration literals, package-header constant and function, component port, design units, subprogram declaration + body with the declaration referenced',
                            library='lib0 (reported)' if not third_party else 'lib2 configured is_third_party (nothing reported)')
 
     def options(self, ctx, inp):
         f = choose(ctx, inp, 'focus', len(CATALOGUE))
         o = choose(ctx, inp, 'site', len(CATALOGUE[f][2]) + 1)
-        pat = choose(ctx, inp, 'others', 4)
+        pat = choose(ctx, inp, 'others', self.npat)
         opts = []
         for i, c in enumerate(CATALOGUE):
             if i == f: opts.append(None if o == 0 else o - 1)
             else:
-                used = {0: True, 1: False, 2: i % 2 == 0, 3: i % 2 == 1}[pat]
+                used = self.PATTERNS[pat](i)
                 opts.append(0 if used else None)
         return opts
 
@@ -174,8 +176,8 @@ class Generated(DesignPart):
         return h
 
     def opts_of(self, w):
-        f = w.get('focus', 0) % len(CATALOGUE); o = w.get('site', 0) % (len(CATALOGUE[f][2]) + 1); pat = w.get('others', 0) % 4
-        return [(None if o == 0 else o - 1) if i == f else (0 if {0: True, 1: False, 2: i % 2 == 0, 3: i % 2 == 1}[pat] else None) for i in range(len(CATALOGUE))]
+        f = w.get('focus', 0) % len(CATALOGUE); o = w.get('site', 0) % (len(CATALOGUE[f][2]) + 1); pat = w.get('others', 0) % self.npat
+        return [(None if o == 0 else o - 1) if i == f else (0 if self.PATTERNS[pat](i) else None) for i in range(len(CATALOGUE))]
 
     def case_of(self, w):
         text, pos = build_design(self.opts_of(w))
@@ -216,8 +218,9 @@ class C19(Check):
         if hasattr(self, '_parts'): return self._parts
         if not hasattr(self, 'll'): self.ll = LangLex(self)
         if not hasattr(self, 'pkit'): self.pkit = ProjectKit(self, third_party=('lib2',), log=self.log)
-        ps = [Generated('generated architecture: which declarations are reported', required=('compared', 'something unused', 'something referenced')),
-              Generated('the same units in a third-party library: nothing is reported', third_party=True, required=('compared',))]
+        np = 4 if self.tier == 'quick' else 8
+        ps = [Generated('generated architecture: which declarations are reported', required=('compared', 'something unused', 'something referenced'), patterns=np),
+              Generated('the same units in a third-party library: nothing is reported', third_party=True, required=('compared',), patterns=np)]
         self._parts = ps
         return ps
 
